@@ -3,8 +3,10 @@ from . import passes
 
 PROP = 'C19'
 CONFIGS = {
-    'quick': [('nestings', ('H_T', 'M_E0', 'T_T', 'O_T', 4, 4), 8000)],
-    'thorough': [('nestings', ('H_T', 'M_E0', 'T_T', 'O_T', 6, 5), 150000)],
+    'quick': [('nestings', ('H_T', 'M_E0', 'T_T', 'O_T', 4, 4), 6000),
+              ('nestings-deep', ('H_T', 'M_E0', 'T_T', 'O_TD', 8, 4), 6000, (1500, 40))],
+    'thorough': [('nestings', ('H_T', 'M_E0', 'T_T', 'O_T', 6, 5), 150000),
+                 ('nestings-deep', ('H_T', 'M_E0', 'T_T', 'O_TD', 10, 5), 100000, (30000, 60))],
 }
 OWNED = {'error_type', 'loop_in_par_rejected', 'accepted', 'flat', 'schedule', 'sub_annotations', 'header_carried', 'imports_carried'}
 
